@@ -1545,6 +1545,91 @@ def prepare(env):
     atoms(env)
 
 
+def ref_apply_bits(psi, op, tgt, ctl, n):
+    """bit-level reference: out[i] = sum_j op[t(i), j] psi[i with the target bits set to j] on the all-ones control subspace
+    (qubit 0 = most significant bit), identity elsewhere; no 2^n x 2^n matrix is formed"""
+    N = 1 << n
+    idx = np.arange(N)
+    k = len(tgt)
+    sh = [n - 1 - q for q in tgt]
+    tb = np.zeros(N, dtype=np.int64)
+    for q, s_ in zip(range(k), sh):
+        tb = (tb << 1) | ((idx >> s_) & 1)
+    base = idx.copy()
+    for s_ in sh:
+        base &= ~(1 << s_)
+    mask = np.ones(N, dtype=bool)
+    for c in ctl:
+        mask &= ((idx >> (n - 1 - c)) & 1).astype(bool)
+    out_ = np.zeros(N, dtype=np.complex128)
+    for j in range(1 << k):
+        src = base.copy()
+        for q, s_ in zip(range(k), sh):
+            if (j >> (k - 1 - q)) & 1:
+                src |= (1 << s_)
+        out_ += op[tb, j] * psi[src]
+    return np.where(mask, out_, psi)
+
+
+def run_bign(case, out, env):
+    import numqi
+    st = numqi.sim.state
+    n = case['n']
+    rng = env.rng('bign%d' % n)
+    N = 1 << n
+    qs = sorted({0, 1, n // 2, n - 2, n - 1})
+    gen = rng.normal(size=N) + 1j * rng.normal(size=N)
+    gen /= np.linalg.norm(gen)
+    states = [('generic', gen)]
+    for b in (N - 1, (N // 3) | 1):
+        e = np.zeros(N, dtype=np.complex128)
+        e[b] = 1
+        states.append(('e%d' % b, e))
+    pats = []
+    for k in (1, 2, 3):
+        tl = list(itertools.permutations(qs, k)) if k < 3 else [t for t in itertools.permutations(qs, 3) if t[0] in (qs[0], qs[-1], qs[2])][:24]
+        for t in tl:
+            rest = [q for q in qs if q not in t]
+            cl = [()] + [(c,) for c in rest] + ([tuple(rest[:2])] if len(rest) >= 2 and k == 1 else [])
+            for c in cl:
+                if k == 3 and c:
+                    continue
+                pats.append((t, c))
+    ops = {}
+    for k in (1, 2, 3):
+        d = 1 << k
+        perm = np.zeros((d, d), dtype=np.complex128)
+        perm[np.arange(d), (np.arange(d) + 1) % d] = 1
+        ops[k] = [('generic', rng.normal(size=(d, d)) + 1j * rng.normal(size=(d, d))), ('shift', perm)]
+    for (t, c) in pats:
+        k = len(t)
+        for oname, U in ops[k]:
+            for sname, psi in (states if (k == 1 or oname == 'generic') else states[:1]):
+                out.state()
+                out.trans()
+                exp = ref_apply_bits(psi, U, t, c, n)
+                try:
+                    if c:
+                        got = st.apply_control_n_gate(psi.copy(), U.copy(), set(c), list(t))
+                        fn = 'apply_control_n_gate'
+                    else:
+                        got = st.apply_gate(psi.copy(), U.copy(), list(t))
+                        fn = 'apply_gate'
+                except Exception as e:  # noqa
+                    out.violation('sim.state/bign/%s' % type(e).__name__, 'n=%d targets=%s controls=%s raised %s: %s' % (n, t, c, type(e).__name__, str(e)[:160]), n=n, tgt=list(t), ctl=list(c))
+                    continue
+                got = np.asarray(got)
+                tol = tol_of(float(np.abs(U).sum()), 1.0, 1 << k)
+                if got.shape != exp.shape or not np.all(np.isfinite(got)) or np.abs(got - exp).max() > tol:
+                    err = float(np.abs(got - exp).max()) if got.shape == exp.shape else float('nan')
+                    out.violation('sim.state/%s/mismatch/large_register/k=%d' % (fn, k),
+                                  '%s(n=%d, controls=%s, targets=%s, op=%s, state=%s) != bit-level reference: max deviation %.3g > tol %.3g' % (fn, n, set(c), t, oname, sname, err, tol),
+                                  n=n, tgt=list(t), ctl=list(c), op=U)
+                out.outcome(('bign', n, t, c, oname, sname, np.round(got[:4], 6)), nontrivial=bool(np.abs(got - psi).max() > 1e-9))
+        out.trace()
+    out.sample = {'kind': 'bign', 'n': n, 'patterns': len(pats)}
+
+
 def build_cases(tier, seed):
     quick = tier == 'quick'
     cases, info = [], {}
@@ -1556,6 +1641,13 @@ def build_cases(tier, seed):
             npat += 1
     info['gate'] = {'n_max': n_gate, 'index_patterns': npat, 'operator_alphabet': '4^k matrix units + generic unitary + generic non-unitary',
                     'state_alphabet': '2^n basis vectors + generic vector (+ float64 basis vectors x complex unitary)'}
+    # ---- large registers (thin): size-dependent code paths (fast paths gated on the number of amplitudes) are outside the
+    # exhaustive range n <= 6; a thin slice of index patterns is run at n = 10, 11, 12 (13 in thorough) against a bit-level reference
+    bign = (10, 11, 12) if quick else (10, 11, 12, 13)
+    for n in bign:
+        cases.append({'kind': 'bign', 'n': n})
+    info['bign'] = {'n': list(bign), 'patterns': 'targets of size 1..3 and control sets of size 0..2 over the qubits {0, 1, n//2, n-2, n-1}, ordered targets incl. descending / interleaved',
+                    'states': '2 basis vectors + 1 generic vector', 'ops': 'generic complex matrix + X-like permutation'}
     # ---- dm: (n, kmax with full polarisation set, kmax with matrix units only)
     dm_cfg = [(1, 1, 1), (2, 2, 2), (3, 2, 3)] if quick else [(1, 1, 1), (2, 2, 2), (3, 3, 3), (4, 2, 3)]
     info['dm'] = [{'n': a, 'k_polarisation': b, 'k_units': c} for a, b, c in dm_cfg]
@@ -1628,7 +1720,7 @@ def build_cases(tier, seed):
         cases.append({'kind': 'prog3s', 'nq': 3, 'level': 'medium', 'lo': i, 'hi': min(i + 12, len(evs_m)), 'depth': 3})
     info['programs'].append({'nq': 3, 'alphabet': 'medium x {append_prev 0,1,2; extend A,B} x {shift +1,+2,-1,0}', 'events': len(evs_m), 'max_depth': 3,
                              'histories': len(evs_m) * 5 * 4})
-    order = {'gatedef': 0, 'holder': 0.5, 'gateobj': 0.6, 'argform': 0.7, 'gate': 1, 'prob': 2, 'expect': 3, 'dm': 4, 'inner': 5, 'prog': 6, 'prog3s': 7}
+    order = {'gatedef': 0, 'holder': 0.5, 'gateobj': 0.6, 'argform': 0.7, 'gate': 1, 'bign': 1.5, 'prob': 2, 'expect': 3, 'dm': 4, 'inner': 5, 'prog': 6, 'prog3s': 7}
     cases.sort(key=lambda c: (order[c['kind']], c.get('depth', 0), c.get('n', c.get('nq', 0)), len(c.get('tgt', [])) + len(c.get('ctl', []))))
     info['exhaustive'] = True
     info['note'] = ('exhaustive within the stated bounds: every index pattern for n<=%d, complete operator/state bases, every history to the depth bound '
@@ -1638,4 +1730,4 @@ def build_cases(tier, seed):
 
 def run_case(case, out, env):
     kind = case['kind']
-    {'gate': run_gate, 'dm': run_dm, 'expect': run_expect, 'prob': run_prob, 'inner': run_inner, 'prog': run_prog, 'prog3s': run_prog3s, 'gatedef': run_gatedef, 'holder': run_holder, 'gateobj': run_gateobj, 'argform': run_argform}[kind](case, out, env)
+    {'gate': run_gate, 'dm': run_dm, 'expect': run_expect, 'prob': run_prob, 'inner': run_inner, 'prog': run_prog, 'prog3s': run_prog3s, 'gatedef': run_gatedef, 'holder': run_holder, 'gateobj': run_gateobj, 'argform': run_argform, 'bign': run_bign}[kind](case, out, env)
